@@ -321,6 +321,33 @@ func c19(c *Ctx) {
 				c.requireCross(site(p[0])+" on-denial", p[0], some, "len(usageList.Items) > 0")
 				rr, _ := cfgx.ReachableFromEdges(failEdges(p[0]), allowed[0], okEdges(p[0]), nil)
 				c.R.Check(!rr, site(p[0])+" failure-not-allowed", c.pos(p[0].Pos()), "a failed annotation patch does not allow the delete", "a failed attempt-annotation patch leads to an allowed response")
+				// every refused attempt is recorded: the patch is skipped only when the
+				// annotation already holds this attempt's value (an equality with the
+				// recorded value, not mere presence)
+				var same []cfgx.Edge
+				for _, cf := range findCmps(val, true, func(x, y ssa.Value) bool {
+					lk, ok := x.(*ssa.Lookup)
+					if !ok || lk.CommaOk || !hasSuffixCall(lk.X, ".GetAnnotations") {
+						return false
+					}
+					_, isConst := y.(*ssa.Const)
+					return !isConst
+				}) {
+					same = append(same, cf.Holds...)
+				}
+				unrecorded := false
+				var at ssa.Instruction = p[0]
+				seen, _ := cfgx.ReachFromEdgesThrough(some, same, map[*ssa.BasicBlock]bool{p[0].Block(): true})
+				for b := range seen {
+					if b == p[0].Block() {
+						continue
+					}
+					if r, ok := b.Instrs[len(b.Instrs)-1].(*ssa.Return); ok {
+						unrecorded = true
+						at = r
+					}
+				}
+				c.R.Check(!unrecorded && len(same) > 0, site(p[0])+" every-attempt-recorded", c.pos(at.Pos()), "a refusal returns without patching only when the recorded value equals this attempt's", "a refused delete can return without recording the attempt although the recorded value differs (or the skip is decided on presence only)")
 			} else {
 				c.R.Bad(load.FuncName(val)+": attempt annotation", c.pos(val.Pos()), "the denied attempt is not recorded on the resource")
 			}
